@@ -57,6 +57,7 @@ def check_C01(ctx, tier):
     A.rule_A_FNAME(ctx, ctx.repo, A.Cache(ctx.repo, unroll=1))    # two keys never share an archive entry through a lossy entry name
     A.rule_A_GLOBAL(ctx, ctx.repo)         # ... and two archives never share a store through a process-wide registry
     A.rule_A_SCHEMA(ctx, ctx.repo)         # ... nor two keys one row through a column affinity
+    A.rule_A_SIBLINGS(ctx, ctx.repo)       # what cache.load() reads (__asdict__ / __getitem__) is the value, decoded the same way by every reader
     ctx.require_instances('W-KEY', 36, 'key uses')
     ctx.require_instances('W-ARGS', 12, 'evaluation sites')
     ctx.assume('an entry (k -> v) in memory or archive satisfies v = f(a) for K(a) = k at the start of the call (inductive hypothesis)')
@@ -81,6 +82,7 @@ def check_C02(ctx, tier):
     ac = A.Cache(ctx.repo, unroll=1)
     A.rule_A_FNAME(ctx, ctx.repo, ac)             # ... under an entry name that is the same in every session
     A.rule_A_KEYERR_FOUND(ctx, ctx.repo, ac)      # ... and a stored None / 0 / '' is found, not reported as missing
+    A.rule_A_NONE_ABSENT(ctx, ctx.repo)           # ... by any reader or writer of the archive and cache classes
     A.rule_A_PUBFAIL(ctx, ctx.repo, ac)           # ... and a failed write of one result never destroys the results archived before
     A.rule_A_COMMIT(ctx, ctx.repo, ac)            # ... and a result written to a SQL archive is committed, so a second decorator instance / later session finds it
     A.rule_A_PUBPARENTS(ctx, ctx.repo, ac)        # ... and an entry whose name is a nested path is really stored
@@ -144,6 +146,7 @@ def check_C07(ctx, tier):
     A.rule_A_PUBFAIL(ctx, ctx.repo, _ac)   # a failed write-back never replaces or removes what is archived
     A.rule_A_WRITEALL(ctx, ctx.repo, _ac)  # a dumped entry is written whatever the archive holds already
     A.rule_A_CODEC(ctx, ctx.repo)          # ... in a form the reader (of any program) can decode
+    A.rule_A_SIBLINGS(ctx, ctx.repo)       # ... through the same encoders whichever writer (update / __setitem__) is used
     return ('Every DEL(v)/CLEAR on a path with an archive attached is preceded by DUMP(v)/DUMP(*) with no intervening store; wrappers '
             'and management closures never touch the archive except through cache.dump/load.')
 
@@ -248,6 +251,7 @@ def check_C11(ctx, tier):
     G.rule_G_FORMS(ctx, ctx.repo)
     G.rule_G_FIELDS(ctx, ctx.repo)
     G.rule_G(ctx, ctx.repo, want=('G-VAL',))       # everything that is not ignored still reaches the key
+    G.rule_G_SELFDROP(ctx, ctx.repo)               # ... also the first positional argument, unless its own parameter is ignored
     K.rule_K_OWN(ctx, ctx.repo)                    # the decomposition of the ignore spec does not depend on earlier calls (module-level state)
     K.rule_K_REPR(ctx, ctx.repo)                   # the substitute NULL has a constant repr
     for d, paths in _wrappers(ctx, tier):
@@ -309,6 +313,7 @@ def check_C08(ctx, tier):
     A.rule_A_WRITEALL(ctx, ctx.repo, ac8)     # what dump hands to archive.update is written, item for item
     A.rule_A_COMMIT(ctx, ctx.repo, ac8)       # ... and committed: sync(clear=True) / dump leave the archive (as every other handle reads it) equal to the cache
     S.rule_S_IDENT(ctx, ctx.repo)             # the archiving switch does not depend on the identity of a per-process placeholder
+    A.rule_A_NONE_ABSENT(ctx, ctx.repo)       # load / dump / sync never take a stored None for an absent key
     ctx.assume('archive.update / __asdict__ / __getitem__ of each backend behave as dict operations (C03)')
     return ('class cache overrides no dict primitive; per-method archive effects equal the table (load reads, dump updates, sync '
             'clears?/updates/reads, toggles rebind, others none); load/dump transfer exactly {a: source[a]} per argument or the whole '
@@ -325,6 +330,7 @@ def check_C03(ctx, tier):
     A.rule_A_EFF(ctx, ctx.repo, cache)
     A.rule_A_KEYERR(ctx, ctx.repo, cache)
     A.rule_A_KEYERR_FOUND(ctx, ctx.repo, cache)
+    A.rule_A_NONE_ABSENT(ctx, ctx.repo)           # presence is never decided from the value a default-less get() returned
     A.rule_A_SQLFAIL(ctx, ctx.repo, cache)
     A.rule_A_POPKEYS(ctx, ctx.repo)               # the multi-key mutator fails before it removes anything
     A.rule_A_COMMIT(ctx, ctx.repo, cache)         # every SQL write is committed (another handle of the same archive is the same dict)
@@ -336,6 +342,7 @@ def check_C03(ctx, tier):
     A.rule_A_PUBPARENTS(ctx, ctx.repo, cache)     # a key containing the path separator is stored (nested) like any other
     A.rule_A_READFAIL(ctx, ctx.repo, cache)       # a store that cannot be decoded reads as empty / missing
     A.rule_A_WRITEALL(ctx, ctx.repo, cache)       # every assignment reaches the store
+    A.rule_A_SIBLINGS(ctx, ctx.repo)              # get / pop / __asdict__ decode what __getitem__ decodes; update encodes what __setitem__ encodes
     A.rule_A_EQ(ctx, ctx.repo, cache)
     A.rule_A_NOCACHE(ctx, ctx.repo, cache)        # every answer comes from the store: no handle-local table that a later delete / store leaves stale
     A.rule_A_FNAME(ctx, ctx.repo, cache, aliasing=True)     # distinct keys keep distinct entry names (no new information loss in the key -> name map)
@@ -362,6 +369,7 @@ def check_C04(ctx, tier):
     A.rule_A_ABS(ctx, ctx.repo, cache)
     A.rule_A_FNAME(ctx, ctx.repo, cache)           # a later session finds an entry under the same name
     A.rule_A_CODEC(ctx, ctx.repo)                  # ... and decodes it with the module that encoded it
+    A.rule_A_SIBLINGS(ctx, ctx.repo)               # ... in every reader of the dict interface
     A.rule_A_GETKEY(ctx, ctx.repo)                 # ... and lists it under the key it was stored with
     A.rule_A_GLOBAL(ctx, ctx.repo)                 # ... from the store, not from a process-wide table of objects read earlier (klepto/_pickle.py included)
     A.rule_A_PUBFAIL(ctx, ctx.repo, cache)         # ... and a store that failed (encode error, lost publish race) left the stored contents alone
